@@ -92,11 +92,10 @@ def cleanup_actions(d) -> int:
 class C07(Property):
     id = "C07"
     title = "An interrupted draw() still restores the terminal and the image"
-    lean_props = ["TIV.C07.Props"]
+    lean_props = ["TIV.C07.Props", "TIV.C07.Visible", "TIV.C07.Silent"]
     driver = DRIVER
-    partial = ("signal delivery inside C code; that the parser is outside a string whenever the clean-up starts "
-               "(the hook follows every cut graphics write) is carried by the exhaustive correspondence + oracle, "
-               "the theorems give the recovery and clean-up halves (see docs/C07.md)")
+    partial = ("signal delivery inside C code; what a half-delivered glyph does to a cell (no Term x parser product); the "
+               "new API's SGR after a cut frame is the subclass hook's business (claimed only for the old API)")
     quick_cases = int(os.environ.get("C07_CASES", "8000"))
     thorough_cases = 30000
 
